@@ -26,6 +26,10 @@ package main
 //	    it has returned, and none starts after it (Execute refuses jobs once the connection is
 //	    closed, so every handler that runs was queued before the close job);
 //	(c) it is delivered exactly once for a connection that has ended;
+//	(e) WebSocket control frames (scripts tp, tq, pt, tpt): the ping / pong handlers are
+//	    callbacks of the connection like OnMessage - (a), (b) apply to them -, WebSocket
+//	    callbacks start in wire order, and what they write (the message handler's reply, the
+//	    ping handler's Pong) is on the wire in the order of the frames it answers;
 //	(d) WebSocket: OnClose at most once, exactly once when the upgrade succeeded, never during
 //	    or before an OnMessage, never overlapping the engine's OnClose. The ORDER of the two
 //	    close callbacks is what the unchanged tree happens to do inside its one close job
@@ -67,8 +71,14 @@ type ecfg struct {
 	//       after-start   the closer waits until slow callback #0 has started
 	//       handler-waits slow callback #0 blocks until the closer has acted (a handler waiting
 	//                     for something that only happens after the disconnect)
+	//       after-replies (control scripts) the peer closes after it has received every reply
 	sync string
-	p    int
+	// script (WebSocket only, "" = n data messages): the client's frames, t = text message,
+	// p = ping, q = unsolicited pong; the message handler answers "re:<payload>", the ping
+	// handler writes the Pong as nbio's default one does. split: one burst per frame
+	script string
+	split  bool
+	p      int
 }
 
 func (c ecfg) name() string {
@@ -76,13 +86,17 @@ func (c ecfg) name() string {
 	if c.ws {
 		kind = "ws"
 	}
+	if c.script != "" {
+		return fmt.Sprintf("engine ws-control %s exec=%s script=%s split=%v end=%s sync=%s", c.mode, c.exec, c.script, c.split, c.end, c.sync)
+	}
 	return fmt.Sprintf("engine %s %s exec=%s n=%d end=%s sync=%s", kind, c.mode, c.exec, c.n, c.end, c.sync)
 }
 
 // cbRec is one callback invocation of the connection: [start, end] on the logical clock.
 type cbRec struct {
-	kind   string // handler | ws-message | ws-close | engine-close
+	kind   string // handler | ws-message | ws-ping | ws-pong | ws-close | engine-close
 	idx    int
+	frame  int // WebSocket callbacks: position of the frame in the client's script (-1: unknown)
 	start  int
 	end    int // 0: did not return
 	thread int
@@ -122,7 +136,7 @@ func (w *eworld) begin(kind string) *cbRec {
 			idx++
 		}
 	}
-	r := &cbRec{kind: kind, idx: idx, thread: vsched.Cur()}
+	r := &cbRec{kind: kind, idx: idx, frame: -1, thread: vsched.Cur()}
 	w.cbs = append(w.cbs, r)
 	r.start = w.tick()
 	vsched.Logf("callback %s starts (t=%d)", r, r.start)
@@ -164,16 +178,54 @@ const (
 	eHandshake = "GET /ws HTTP/1.1\r\nHost: h\r\nConnection: Upgrade\r\nUpgrade: websocket\r\nSec-WebSocket-Version: 13\r\nSec-WebSocket-Key: dGhlIHNhbXBsZSBub25jZQ==\r\n\r\n"
 )
 
-// maskedFrame encodes one final binary frame from the client (RFC 6455 5.2; payload < 126 bytes).
-func maskedFrame(payload []byte, key [4]byte) []byte {
-	b := []byte{0x82, 0x80 | byte(len(payload)), key[0], key[1], key[2], key[3]}
+// maskedFrame encodes one final frame from the client (RFC 6455 5.2; payload < 126 bytes).
+func maskedFrame(op byte, payload []byte, key [4]byte) []byte {
+	b := []byte{0x80 | op, 0x80 | byte(len(payload)), key[0], key[1], key[2], key[3]}
 	for i, x := range payload {
 		b = append(b, x^key[i%4])
 	}
 	return b
 }
 
+// serverFrames splits what the peer received after the 101 response into the server's
+// (unmasked, short) frames; a cut last frame (the connection was closed) is dropped.
+type srvFrame struct {
+	op      byte
+	payload string
+}
+
+func serverFrames(got []byte) []srvFrame {
+	i := bytes.Index(got, []byte("\r\n\r\n"))
+	if i < 0 {
+		return nil
+	}
+	b := got[i+4:]
+	var out []srvFrame
+	for len(b) >= 2 {
+		n := int(b[1] & 0x7f)
+		if n >= 126 || len(b) < 2+n {
+			break
+		}
+		out = append(out, srvFrame{op: b[0] & 0x0f, payload: string(b[2 : 2+n])})
+		b = b[2+n:]
+	}
+	return out
+}
+
+// framePos reads the script position out of a payload of the form <letter><digit>.
+func framePos(payload string) int {
+	if len(payload) == 2 && payload[1] >= '0' && payload[1] <= '9' {
+		return int(payload[1] - '0')
+	}
+	return -1
+}
+
 func engineBody(c ecfg) func() {
+	script := c.script
+	if c.ws && script == "" {
+		script = strings.Repeat("t", c.n)
+	}
+	nReplies := strings.Count(script, "t") + strings.Count(script, "p")
 	return func() {
 		vsys.Configure(false, false)
 		vkit.Log.TakeErrors()
@@ -190,6 +242,7 @@ func engineBody(c ecfg) func() {
 		upgradeErr := error(nil)
 		upgraded := 0
 		closeQueueLen := -1
+		controlQueued := 0 // control callbacks that found themselves queued behind other work
 
 		// slow is the body of a callback that takes time: scheduling points between its start and
 		// its end, optionally waiting for the disconnect, optionally closing the connection itself.
@@ -214,9 +267,36 @@ func engineBody(c ecfg) func() {
 		u.CheckOrigin = func(*http.Request) bool { return true }
 		u.OnMessage(func(conn *websocket.Conn, mt websocket.MessageType, data []byte) {
 			r := w.begin("ws-message")
+			r.frame = framePos(string(data))
 			slow(r, func() { _ = conn.Close() })
+			if c.script != "" {
+				_ = conn.WriteMessage(websocket.TextMessage, []byte("re:"+string(data)))
+			}
 			w.finish(r)
 		})
+		if c.script != "" {
+			control := func(kind string, conn *websocket.Conn, data string) *cbRec {
+				r := w.begin(kind)
+				r.frame = framePos(data)
+				// in the unchanged tree a control callback is a job of the connection's queue: a list
+				// longer than 1 means it was queued behind other work (a message handler running or
+				// waiting). A public call; it takes the connection mutex.
+				if nbc.ExecuteLen() >= 2 {
+					controlQueued++
+				}
+				vsched.Point()
+				return r
+			}
+			u.SetPingHandler(func(conn *websocket.Conn, data string) {
+				r := control("ws-ping", conn, data)
+				_ = conn.WriteMessage(websocket.PongMessage, []byte(data)) // what the default handler does
+				w.finish(r)
+			})
+			u.SetPongHandler(func(conn *websocket.Conn, data string) {
+				r := control("ws-pong", conn, data)
+				w.finish(r)
+			})
+		}
 		u.OnClose(func(conn *websocket.Conn, err error) {
 			r := w.begin("ws-close")
 			vsched.Point()
@@ -291,12 +371,36 @@ func engineBody(c ecfg) func() {
 					peer.Read(0)
 				}
 				w.tick()
-				var b []byte
-				for i := 0; i < c.n; i++ {
-					b = append(b, maskedFrame([]byte(fmt.Sprintf("m%d", i)), [4]byte{9, 8, 7, byte(i + 1)})...)
+				if c.script != "" {
+					vsched.GoNamed("drain", func() { peer.Drain() })
 				}
-				if !peer.WriteAll(b) {
-					return
+				var b []byte
+				for i, x := range script {
+					key := [4]byte{9, 8, 7, byte(i + 1)}
+					switch x {
+					case 't':
+						op := byte(2) // the data-message scenarios send binary messages, the control scripts text
+						if c.script != "" {
+							op = 1
+						}
+						b = append(b, maskedFrame(op, []byte(fmt.Sprintf("m%d", i)), key)...)
+					case 'p':
+						b = append(b, maskedFrame(9, []byte(fmt.Sprintf("p%d", i)), key)...)
+					case 'q':
+						b = append(b, maskedFrame(10, []byte(fmt.Sprintf("q%d", i)), key)...)
+					}
+					if c.split || i == len(script)-1 {
+						if !peer.WriteAll(b) {
+							return
+						}
+						b = nil
+					}
+				}
+				if c.sync == "after-replies" {
+					vsched.Block("client.wait-replies", func() bool {
+						return len(serverFrames(peer.Got)) >= nReplies || peer.ClosedByRemote()
+					})
+					w.tick()
 				}
 			} else {
 				var b []byte
@@ -347,7 +451,8 @@ func engineBody(c ecfg) func() {
 		msgs := w.of("ws-message")
 		wsCloses := w.of("ws-close")
 		engCloses := w.of("engine-close")
-		work := append(append([]*cbRec{}, handlers...), msgs...)
+		controls := append(w.of("ws-ping"), w.of("ws-pong")...)
+		work := append(append(append([]*cbRec{}, handlers...), msgs...), controls...)
 		ctx := w.timeline() + " (" + c.name() + ")"
 		closedNow, closeErr := nbc.IsClosed()
 
@@ -409,11 +514,69 @@ func engineBody(c ecfg) func() {
 		}
 		if len(wsCloses) > 0 {
 			wc := wsCloses[0]
-			for _, x := range msgs {
+			for _, x := range append(append([]*cbRec{}, msgs...), controls...) {
 				if x.start > wc.start {
-					w.failf("ws-close-before-queued-message|%s started (t=%d) after the WebSocket OnClose callback (t=%d); callbacks: %s", x, x.start, wc.start, ctx)
+					w.failf("ws-close-before-queued-%s|%s started (t=%d) after the WebSocket OnClose callback (t=%d); callbacks: %s", strings.TrimPrefix(x.kind, "ws-"), x, x.start, wc.start, ctx)
 				}
 			}
+		}
+		// the server's frames as the peer saw them: replies and Pongs in the order of the frames
+		// they answer (each callback writes while it runs, callbacks run one at a time in order)
+		wireJudged := 0
+		if c.script != "" {
+			lastPos := -1
+			seen := map[int]bool{}
+			for _, f := range serverFrames(peer.Got) {
+				if f.op == 8 {
+					continue
+				}
+				pos := -1
+				switch {
+				case f.op == 1 && strings.HasPrefix(f.payload, "re:"):
+					pos = framePos(f.payload[3:])
+				case f.op == 10:
+					pos = framePos(f.payload)
+				}
+				want := byte(0)
+				if pos >= 0 && pos < len(script) {
+					want = script[pos]
+				}
+				if (f.op == 1 && want != 't') || (f.op == 10 && want != 'p') || (f.op != 1 && f.op != 10) {
+					w.failf("ws-wire-unknown-frame|the peer received a frame (opcode %d, %q) that answers none of its frames (script %q); callbacks: %s", f.op, f.payload, script, ctx)
+					continue
+				}
+				if seen[pos] {
+					w.failf("ws-wire-duplicate-reply|frame #%d of the client's script %q was answered twice on the wire; callbacks: %s", pos, script, ctx)
+				}
+				seen[pos] = true
+				if pos < lastPos {
+					what := "reply"
+					if f.op == 10 {
+						what = "pong"
+					}
+					w.failf("ws-wire-reply-order %s-overtaken|the answer to frame #%d (%c) of the client's script %q is on the wire behind the answer to the later frame #%d (%c): a later callback wrote before an earlier one had finished; callbacks: %s", what, pos, script[pos], script, lastPos, script[lastPos], ctx)
+				}
+				if pos > lastPos {
+					lastPos = pos
+				}
+				wireJudged++
+			}
+		}
+		// WebSocket callbacks run in wire order (the queue is FIFO): the script position of the
+		// frame each callback was given grows with the callback's start time
+		var last *cbRec
+		for _, x := range w.cbs { // w.cbs is in start order
+			if x.kind != "ws-message" && x.kind != "ws-ping" && x.kind != "ws-pong" {
+				continue
+			}
+			if x.frame < 0 || x.frame >= len(script) {
+				w.failf("ws-callback-unknown-frame|%s was given a payload that is none of the client's frames; callbacks: %s", x, ctx)
+				continue
+			}
+			if last != nil && x.frame <= last.frame {
+				w.failf("ws-callback-order %s-before-%s|%s (frame #%d of the client's script %q) started at t=%d, after %s (frame #%d, t=%d): callbacks of one connection did not run in wire order; callbacks: %s", strings.TrimPrefix(last.kind, "ws-"), strings.TrimPrefix(x.kind, "ws-"), x, x.frame, script, x.start, last, last.frame, last.start, ctx)
+			}
+			last = x
 		}
 		if e := vkit.Log.TakeErrors(); len(e) > 0 {
 			first := e[0]
@@ -458,6 +621,21 @@ func engineBody(c ecfg) func() {
 		if len(w.of(slowKind)) < c.n {
 			cnt["engine_work_refused_after_close"] = 1
 		}
+		if c.script != "" {
+			cnt["engine_control_callbacks_run"] = len(controls)
+			cnt["engine_control_queued_behind_work"] = controlQueued
+			cnt["engine_reply_frames_on_wire"] = wireJudged
+			if wireJudged >= 2 {
+				cnt["engine_wire_order_judged"] = 1
+			}
+			for _, x := range controls {
+				for _, m := range msgs {
+					if m.frame < x.frame && closeIssued != 0 && m.start < closeIssued && (m.end == 0 || closeIssued < m.end) {
+						cnt["engine_control_waited_behind_message_that_saw_the_close"] = 1
+					}
+				}
+			}
+		}
 		if len(wsCloses) > 0 {
 			cnt["engine_ws_close_delivered"] = 1
 		}
@@ -475,6 +653,15 @@ func engineBody(c ecfg) func() {
 			order = "engine-close"
 		}
 		lastOutcome = fmt.Sprintf("engine: ran=%d/%d close-job-queue=%d %s", len(w.of(slowKind)), c.n, closeQueueLen, order)
+		if c.script != "" {
+			var ran []byte
+			for _, x := range w.cbs {
+				if x.frame >= 0 && x.frame < len(script) {
+					ran = append(ran, script[x.frame])
+				}
+			}
+			lastOutcome = fmt.Sprintf("engine control: script=%s ran=%s replies=%d close-job-queue=%d %s", script, ran, wireJudged, closeQueueLen, order)
+		}
 		for _, f := range w.fails {
 			vsched.Fail("%s", f)
 		}
@@ -514,6 +701,11 @@ func engineScenarios(tier string) []*vkit.Scenario {
 			// non-trivial: in some execution the close job was queued behind a handler / OnMessage
 			// that was running or waiting in the queue, and in some execution a callback ran at all
 			NonTrivial: func(m map[string]int) bool {
+				if c.script != "" {
+					// control scripts: in some execution a ping / pong callback was queued behind
+					// other work of the connection, and messages and control callbacks ran
+					return m["engine_control_queued_behind_work"] > 0 && m["engine_messages_run"] > 0 && m["engine_control_callbacks_run"] > 0
+				}
 				return m["engine_close_job_queued_behind_work"] > 0 && m["engine_handlers_run"] > 0
 			},
 		})
@@ -574,6 +766,39 @@ func engineScenarios(tier string) []*vkit.Scenario {
 							}
 							add(ecfg{mode: m, exec: e, ws: ws, n: n, end: end, sync: sync, p: p})
 						}
+					}
+				}
+			}
+		}
+	}
+	// WebSocket control frames: ping / pong handlers are callbacks of the connection like
+	// OnMessage (added after the seeded change C05-m5 was missed: ping / pong called straight from
+	// the reading thread instead of through the job queue)
+	for _, m := range modes {
+		for _, e := range []string{"go", "pool"} {
+			for _, script := range []string{"tp", "tq", "pt", "tpt"} {
+				for _, split := range []bool{false, true} {
+					for _, sync := range []string{"handler-waits", "after-replies"} {
+						// quick: the message handler that waits for the disconnect with one burst per
+						// frame (preemptions of the client separate the reads); the reply-order
+						// variant with everything in one burst
+						inQuick := (sync == "handler-waits") == split
+						if e == "pool" && (script == "tq" || script == "pt") {
+							inQuick = false // the default pool's executions are 4-5 times slower
+						}
+						if !inQuick && (!thorough || m == ekit.ONESHOT) {
+							continue
+						}
+						// one preemption of the client separates the reads and lands the control frame
+						// in a running message handler; the second one is kept where it is cheap
+						p := 1
+						if e == "go" && sync == "after-replies" && (script == "tp" || script == "tpt") {
+							p = 2
+						}
+						if thorough && !(e == "pool" && (script == "tq" || script == "pt")) {
+							p++ // (0.2 M executions, two minutes each with the default pool at P=2)
+						}
+						add(ecfg{mode: m, exec: e, ws: true, n: strings.Count(script, "t"), script: script, split: split, end: "close", sync: sync, p: p})
 					}
 				}
 			}
